@@ -290,12 +290,19 @@ def compare(plan: dict, base: dict, sim: dict, base_nofault: Optional[dict]) -> 
         got = sim["pre"].get(key)
         if got is None:
             return {"class": "missing-result", "op": key}
+        fired = got[-1] == "fault-fired"
         got = _strip(got)
+        if key == armed_key:
+            # the one operation inside which the fault actually fired is excused (InjectedFault,
+            # or degraded where apischema deliberately swallows exceptions of user callables);
+            # if it did not fire (compilation served by another thread) the fault-free result
+            # is due
+            if fired:
+                continue
+            if base_nofault is not None:
+                exp = _strip(base_nofault["pre"][key])
         if got == exp:
             continue
-        if key == armed_key and base_nofault is not None:
-            if got == _strip(base_nofault["pre"][key]):
-                continue
         return _mismatch("", key, exp, got)
     for i, (e, g) in enumerate(zip(base["post"], sim["post"])):
         if _strip(e) != _strip(g):
